@@ -139,6 +139,21 @@ func c06scenarios(probe string) []c06scn {
 			"svc.d/d.go": goIface("d", "D"), "svc.d/e/e.go": goIface("e", "E")}
 		out = append(out, c06scn{"recursive packages whose paths sort around the separator", files, cfg})
 	}
+	{ // packages sharing one custom template and schema, with per-package validation settings: what is decided for
+		// one output file (validate or not, which schema) must not depend on which file was produced first
+		cfg := probeRoot()
+		strict := "file://" + filepath.Join(filepath.Dir(probe), "strict.templ")
+		cfg["template"] = strict
+		delete(cfg, "require-template-schema-exists")
+		cfg["all"] = true
+		cfg["packages"] = core.M{
+			P("a"): core.M{"config": core.M{"require-template-schema-exists": false, "template-data": core.M{"not-in-schema": 1}}},
+			P("b"): core.M{"config": core.M{"template-data": core.M{"ok": true}}},
+			P("c"): core.M{"config": core.M{"require-template-schema-exists": false, "template-data": core.M{"also-not-in-schema": "x"}}},
+			P("d"): core.M{"config": core.M{"require-template-schema-exists": true}},
+		}
+		out = append(out, c06scn{"shared custom template and schema, validation switched off for some packages", map[string]string{"a/a.go": goIface("a", "A1"), "b/b.go": goIface("b", "B1", "B2"), "c/c.go": goIface("c", "C1"), "d/d.go": goIface("d", "D1")}, cfg})
+	}
 	{ // one output file per interface: whatever state is kept between files (import registries, qualifiers,
 		// reserved names) must not leak from the files rendered earlier, in whatever order they are visited
 		cfg := testifyRoot()
@@ -171,7 +186,8 @@ func C06(c *core.Ctx) error {
 		maxDev, limit = 2, 2500
 	}
 	probe := filepath.Join(c.Scratch, "probe.templ")
-	core.WriteTree(c.Scratch, map[string]string{"probe.templ": core.ProbeTemplate})
+	core.WriteTree(c.Scratch, map[string]string{"probe.templ": core.ProbeTemplate,
+		"strict.templ": core.ProbeTemplate, "strict.templ.schema.json": `{"type":"object","additionalProperties":false,"properties":{"ok":{}}}`})
 	scns := c06scenarios(probe)
 	var seq struct {
 		sync.Mutex
